@@ -238,6 +238,45 @@ class SimRawIO(io.RawIOBase):
                         pass
 
 
+class BrokenDirEntry:
+    """A directory entry whose type cannot be found out (no d_type, and the stat it implies fails)."""
+
+    def __init__(self, seam, entry, rel):
+        self._seam = seam
+        self._e = entry
+        self._rel = rel
+        self.name = entry.name
+        self.path = entry.path
+
+    def _fail(self, what):
+        s = self._seam
+        s.stats['broken_entry_probed'] = s.stats.get('broken_entry_probed', 0) + 1
+        s.fired['entry-type-probe:EIO'] = s.fired.get('entry-type-probe:EIO', 0) + 1
+        s._event('entry.' + what, self._rel, 'FAULT:EIO')
+        raise OSError(_errno.EIO, os.strerror(_errno.EIO), self.path)
+
+    def is_dir(self, follow_symlinks=True):
+        self._fail('is_dir')
+
+    def is_file(self, follow_symlinks=True):
+        self._fail('is_file')
+
+    def stat(self, follow_symlinks=True):
+        self._fail('stat')
+
+    def is_symlink(self):
+        return False
+
+    def inode(self):
+        return self._e.inode()
+
+    def __fspath__(self):
+        return self.path
+
+    def __repr__(self):
+        return '<BrokenDirEntry %r>' % self.name
+
+
 class ScandirProxy:
     def __init__(self, seam, path, rel, entries):
         self._seam = seam
@@ -332,8 +371,13 @@ class Seam:
     def __init__(self, root, order_key=None, faults=None, mounts=None,
                  clock=None, virtual_root=False, step_cap=None,
                  read_chunks=None, stamp_writes=True, zero_size=None, size_override=None,
-                 default_dev=None, hook=None, order_alias=(), patch_time=False, pool=None, ino_alias=None):
+                 default_dev=None, hook=None, order_alias=(), patch_time=False, pool=None, ino_alias=None,
+                 broken_entries=None):
         self.root = os.path.realpath(root)
+        # rel paths whose directory entry cannot be classified: is_dir()/is_file()/stat() of the DirEntry raise EIO, as on a
+        # filesystem that reports no d_type (NFS, FUSE) when the implied stat fails.  Combined by the caller with a
+        # persistent fault on open/stat of the same path.
+        self.broken_entries = set(broken_entries or ())
         # completion order of the loader's worker pool: 'keyed' (permuted by the run's key) or 'serial' (as shipped)
         if pool is None:
             pool = 'keyed' if (order_key is not None and os.environ.get('VERIF_POOL', '1') != '0'
@@ -598,6 +642,9 @@ class Seam:
             entries.sort(key=lambda e: _h(self.order_key, ctx, e.name))
             if len(entries) > 1 and [e.name for e in entries] != sorted(natural):
                 self.stats['permuted_listings'] = self.stats.get('permuted_listings', 0) + 1
+        if self.broken_entries:
+            entries = [BrokenDirEntry(self, e, (rel + '/' if rel not in ('', '.') else '') + e.name)
+                       if ((rel + '/' if rel not in ('', '.') else '') + e.name) in self.broken_entries else e for e in entries]
         return ScandirProxy(self, path, rel, entries)
 
     def _os_listdir(self, path='.'):
